@@ -57,6 +57,7 @@ struct Dumper {
   }
   bool dims(QualType T, int &R, int &C) {
     T = T.getNonReferenceType().getCanonicalType();
+    if (T->isPointerType()) T = T->getPointeeType().getCanonicalType();  // result of optional::operator->
     if (T->isDependentType()) return false;
     const Type *TP = T.getTypePtr();
     auto It = dimCache.find(TP);
@@ -70,6 +71,20 @@ struct Dumper {
     }
     dimCache[TP] = ok ? std::make_pair(R, C) : std::make_pair(-999, -999);
     return ok;
+  }
+
+  // number of scalars stored by a manif object (its `data_` member), for R-PTR
+  bool mdims(QualType T, int &N) {
+    T = T.getNonReferenceType().getCanonicalType();
+    if (T->isDependentType()) return false;
+    const CXXRecordDecl *RD = T->getAsCXXRecordDecl();
+    if (!RD || !(RD = RD->getDefinition())) return false;
+    for (const FieldDecl *FD : RD->fields())
+      if (FD->getName() == "data_") {
+        int R, C;
+        if (dims(FD->getType(), R, C)) { N = R * C; return true; }
+      }
+    return false;
   }
 
   // ---- template arguments --------------------------------------------------------
@@ -141,6 +156,7 @@ struct Dumper {
         O["ty"] = typeId(T);
         int R, C;
         if (!T->isDependentType() && dims(T, R, C)) O["dim"] = json::Array{R, C};
+        else if (!T->isDependentType() && T->getAsCXXRecordDecl() && mdims(T, R)) O["mdim"] = R;
         if (!E->isValueDependent() && !E->isTypeDependent() && (T->isIntegralOrEnumerationType()) &&
             !isa<IntegerLiteral>(E) && !isa<CXXBoolLiteralExpr>(E)) {
           Expr::EvalResult ER;
@@ -323,6 +339,34 @@ struct Dumper {
     return json::Value(std::move(O));
   }
 
+  // tl::optional<Eigen::Ref<M>> -> "opt":[r,c]; Eigen::Ref<M> (by value / non-const) -> "ref":[r,c]
+  void paramShape(json::Object &PO, QualType T) {
+    if (T.isNull() || T->isDependentType()) return;
+    QualType CT = T.getCanonicalType();
+    PO["cty"] = X.typeStr(CT);
+    QualType NR = CT.getNonReferenceType();
+    PO["constq"] = NR.isConstQualified();
+    PO["isref"] = CT->isReferenceType();
+    const auto *RD = NR->getAsCXXRecordDecl();
+    const auto *CTS = dyn_cast_or_null<ClassTemplateSpecializationDecl>(RD);
+    if (!CTS) return;
+    std::string QN = CTS->getQualifiedNameAsString();
+    int R, C;
+    if (QN == "tl::optional" && CTS->getTemplateArgs().size() >= 1 &&
+        CTS->getTemplateArgs()[0].getKind() == TemplateArgument::Type) {
+      QualType In = CTS->getTemplateArgs()[0].getAsType();
+      const auto *ID = In->getAsCXXRecordDecl();
+      if (ID && ID->getQualifiedNameAsString() == "Eigen::Ref" && dims(In, R, C)) PO["opt"] = json::Array{R, C};
+      else PO["optother"] = X.typeStr(In);
+    } else if (QN == "Eigen::Ref" && dims(NR, R, C)) {
+      // Ref<const M> is read-only
+      bool constInner = false;
+      if (CTS->getTemplateArgs().size() >= 1 && CTS->getTemplateArgs()[0].getKind() == TemplateArgument::Type)
+        constInner = CTS->getTemplateArgs()[0].getAsType().isConstQualified();
+      if (!constInner) PO["ref"] = json::Array{R, C};
+    }
+  }
+
   json::Value function(const FunctionDecl *F) {
     json::Object O;
     O["id"] = declId(F);
@@ -339,6 +383,7 @@ struct Dumper {
     }
     if (const auto *TA = F->getTemplateSpecializationArgs()) O["targs"] = targs(TA);
     O["ret"] = typeId(F->getReturnType());
+    if (!F->getReturnType()->isDependentType()) O["cret"] = X.typeStr(F->getReturnType().getCanonicalType());
     if (F->isNoReturn()) O["noret"] = true;
     if (F->isInlined()) O["inline"] = true;
     if (F->isDefaulted()) O["defaulted"] = true;
@@ -376,6 +421,7 @@ struct Dumper {
       PO["name"] = P->getNameAsString();
       PO["decl"] = declId(P);
       PO["ty"] = typeId(P->getType());
+      paramShape(PO, P->getType());
       if (P->hasDefaultArg() && !P->hasUninstantiatedDefaultArg() && !P->hasUnparsedDefaultArg()) PO["hasdef"] = true;
       Ps.push_back(std::move(PO));
     }
@@ -412,6 +458,11 @@ struct Dumper {
         json::Object FO;
         FO["name"] = FD->getNameAsString();
         FO["ty"] = typeId(FD->getType());
+        if (!FD->getType()->isDependentType()) {
+          FO["cty"] = X.typeStr(FD->getType().getCanonicalType());
+          int R, C;
+          if (dims(FD->getType(), R, C)) FO["dim"] = json::Array{R, C};
+        }
         FO["mutable"] = FD->isMutable();
         FO["constq"] = FD->getType().isConstQualified();
         FO["access"] = (int64_t)FD->getAccess();
